@@ -308,6 +308,49 @@ func TestAllGroups(t *testing.T) {
 	})
 }
 
+// all ordered pairs of six-trit groups: first fault wins, count of decoded bytes
+func TestAllGroupPairs(t *testing.T) {
+	stride := 7
+	if h.Thorough() {
+		stride = 1
+	}
+	h.RunEnum(t, h.Enum[tritsCase]{
+		Prop: "C14", Name: "b1t6-group-pairs",
+		Rule: fmt.Sprintf("enumeration of ordered pairs of six-trit groups (729 x 729, every %d-th pair; thorough: all 531 441) through b1t6.Decode and DecodeTrytes: verdict, error kind and decoded count = reference", stride),
+		Each: func(yield func(tritsCase) bool) {
+			n := 0
+			for a := 0; a < 729; a++ {
+				for b := 0; b < 729; b++ {
+					n++
+					if n%stride != 0 {
+						continue
+					}
+					g := make([]int8, 12)
+					x, y := a, b
+					for i := 0; i < 6; i++ {
+						g[i] = int8(x%3) - 1
+						x /= 3
+						g[6+i] = int8(y%3) - 1
+						y /= 3
+					}
+					codec := "b1t6"
+					if n%2 == 0 {
+						codec = "b1t6-trytes"
+					}
+					if !yield(tritsCase{codec, g}) {
+						return
+					}
+				}
+			}
+		},
+		Check: func(c tritsCase) (h.Info, error) {
+			info, err := checkDecode(c)
+			info.NT = true
+			return info, err
+		},
+	})
+}
+
 func genTrits(t *rapid.T) tritsCase {
 	codec := h.OneOf(t, "codec", "b1t6", "b1t6-trytes", "b1t8")
 	group := 6
